@@ -234,6 +234,7 @@ pub fn lines(out: &mut Out, seed: u64, tier: &str) {
         if !ok || k % 2000 == 0 { out.oracle("c19-natural-representation-roundtrips", &format!("case={} k={}", k % 4, k), ok); }
         rt += 1;
     }
+    rt += positional_roundtrips(out, seed, count / 2);
     // malformed shapes: must fail (never panic, never yield a value)
     let bad = [json!(null), json!("5"), json!(5.5), json!([1, 2]), json!({"channel": 1}), json!([128, 0]), json!([128, 0, 0, 0]),
                json!({"channel": 0, "msb_controller_number": 0}), json!(true), json!([])];
@@ -248,4 +249,134 @@ pub fn lines(out: &mut Out, seed: u64, tier: &str) {
     out.stat("evaluations", n + rt);
     out.stat("nontrivial", n + rt);
     out.stat("roundtrips", rt);
+}
+
+// ------------------------------------------------------------------------------------------ positional representation
+
+/// ordered JSON tree (serde_json's own `Value` sorts object keys; the order in which `Serialize` emits the fields is
+/// exactly what a positional format stores)
+enum J { Obj(Vec<(String, J)>), Arr(Vec<J>), Lit(String) }
+
+fn parse_j(b: &[u8], i: &mut usize) -> Option<J> {
+    let ws = |i: &mut usize| while *i < b.len() && (b[*i] as char).is_whitespace() { *i += 1; };
+    ws(i);
+    match *b.get(*i)? {
+        b'{' => {
+            *i += 1;
+            let mut f = Vec::new();
+            loop {
+                ws(i);
+                if *b.get(*i)? == b'}' { *i += 1; break; }
+                if b[*i] == b',' { *i += 1; continue; }
+                let k = match parse_j(b, i)? { J::Lit(k) => k.trim_matches('"').to_string(), _ => return None };
+                ws(i);
+                if *b.get(*i)? != b':' { return None; }
+                *i += 1;
+                f.push((k, parse_j(b, i)?));
+            }
+            Some(J::Obj(f))
+        }
+        b'[' => {
+            *i += 1;
+            let mut a = Vec::new();
+            loop {
+                ws(i);
+                if *b.get(*i)? == b']' { *i += 1; break; }
+                if b[*i] == b',' { *i += 1; continue; }
+                a.push(parse_j(b, i)?);
+            }
+            Some(J::Arr(a))
+        }
+        b'"' => {
+            let s0 = *i;
+            *i += 1;
+            while *b.get(*i)? != b'"' { *i += 1; }
+            *i += 1;
+            Some(J::Lit(String::from_utf8_lossy(&b[s0..*i]).into_owned()))
+        }
+        _ => {
+            let s0 = *i;
+            while *i < b.len() && !matches!(b[*i], b',' | b'}' | b']' | b':') && !(b[*i] as char).is_whitespace() { *i += 1; }
+            Some(J::Lit(String::from_utf8_lossy(&b[s0..*i]).into_owned()))
+        }
+    }
+}
+
+/// structs (objects keyed by snake_case field names) become sequences of their field values in serialization order;
+/// externally tagged enum variants (one CamelCase key) keep their tag
+fn positional_j(j: &J) -> String {
+    match j {
+        J::Lit(s) => s.clone(),
+        J::Arr(a) => format!("[{}]", a.iter().map(positional_j).collect::<Vec<_>>().join(",")),
+        J::Obj(f) if f.len() == 1 && f[0].0.chars().next().map_or(false, |c| c.is_ascii_uppercase()) =>
+            format!("{{\"{}\":{}}}", f[0].0, positional_j(&f[0].1)),
+        J::Obj(f) => format!("[{}]", f.iter().map(|(_, v)| positional_j(v)).collect::<Vec<_>>().join(",")),
+    }
+}
+
+pub fn positional<T: serde::Serialize>(m: &T) -> Option<String> {
+    let text = serde_json::to_string(m).ok()?;
+    let mut i = 0;
+    Some(positional_j(&parse_j(text.as_bytes(), &mut i)?))
+}
+
+/// the positional text deserializes to a value whose own positional text is the same, and (when given) equals `want`
+fn pos_roundtrip<T: serde::Serialize + serde::de::DeserializeOwned + PartialEq>(text: &str, want: Option<&T>) -> bool {
+    match serde_json::from_str::<T>(text) {
+        Ok(m) => want.map_or(true, |w| *w == m) && positional(&m).as_deref() == Some(text),
+        Err(_) => false,
+    }
+}
+
+pub fn positional_oracle(ty: &str, text: &str) -> Option<bool> {
+    Some(match ty {
+        "pn" => pos_roundtrip::<ParameterNumberMessage>(text, None),
+        "cc14" => pos_roundtrip::<ControlChange14BitMessage>(text, None),
+        "str" => pos_roundtrip::<StructuredShortMessage>(text, None),
+        "raw" => pos_roundtrip::<RawShortMessage>(text, None),
+        _ => return None,
+    })
+}
+
+/// natural representation, positional flavour (what bincode / postcard-like formats store, and what every derived
+/// struct also accepts from self-describing formats): serialize with the real `Serialize`, keep only the values in
+/// the order they were emitted, deserialize, compare
+pub fn positional_roundtrips(out: &mut Out, seed: u64, count: u64) -> u64 {
+    let mut rng = Rng(seed ^ 0x9051);
+    let mut bad = 0u64;
+    for k in 0..count {
+        let c = rng.below(16) as u32;
+        let (ty, text, ok) = match k % 4 {
+            0 => {
+                let m = RawShortMessage::from_bytes((128 + rng.below(128) as u8, crate::msgs::u7(rng.below(128) as u8), crate::msgs::u7(rng.below(128) as u8))).unwrap();
+                let s = m.to_structured();
+                let t = positional(&s).unwrap_or_default();
+                let ok = pos_roundtrip(&t, Some(&s));
+                ("str", t, ok)
+            }
+            1 => {
+                let m = crate::scan::pn_ctor(rng.below(8) as u32, c, rng.below(16384) as u32, rng.below(128) as u32);
+                let t = positional(&m).unwrap_or_default();
+                let ok = pos_roundtrip(&t, Some(&m));
+                ("pn", t, ok)
+            }
+            2 => {
+                let m = crate::scan::pn_ctor(if rng.below(2) == 0 { 1 } else { 5 }, c, rng.below(16384) as u32, rng.below(16384) as u32);
+                let t = positional(&m).unwrap_or_default();
+                let ok = pos_roundtrip(&t, Some(&m));
+                ("pn", t, ok)
+            }
+            _ => {
+                let m = helgoboss_midi::test_util::control_change_14_bit(c as u8, rng.below(32) as u8, rng.below(16384) as u16);
+                let t = positional(&m).unwrap_or_default();
+                let ok = pos_roundtrip(&t, Some(&m));
+                ("cc14", t, ok)
+            }
+        };
+        if !ok { bad += 1; }
+        if (!ok && bad <= 8) || k % 2000 == 0 {
+            out.oracle("c19-positional-representation-roundtrips", &format!("type={} json={}", ty, text.replace(' ', "")), ok);
+        }
+    }
+    count
 }
